@@ -158,3 +158,20 @@ Lemma signable_complete st b : LENGTH <> 0 -> (LENGTH | b + 1) ->
 Proof.
   intros HL Hd. unfold signable_entries. rewrite (complete_beacon_fully b HL Hd). reflexivity.
 Qed.
+
+(* ---- a fork switch at the store level ---- *)
+Lemma switch_converges st p a q q' :
+  blocks st = p ++ a :: q -> chain_ok (p ++ a :: q) -> chain_ok (p ++ a :: q') ->
+  exists st1, fst (rollback st (slot a)) = st1 /\
+    option_map blocks (flush st1 q') = Some (p ++ a :: q') /\
+    option_map blocks (flush st1 q') = store_blocks [] (p ++ a :: q').
+Proof.
+  intros Hb H H'. rewrite (rollback_on_chain st p a q Hb H). cbn [fst]. eexists. split; [reflexivity|].
+  assert (He : ext_ok (p ++ [a]) q').
+  { unfold chain_ok in H'. replace (p ++ a :: q') with ((p ++ [a]) ++ q') in H' by (rewrite <- app_assoc; reflexivity).
+    apply ext_ok_app in H' as [_ H']. exact H'. }
+  rewrite flush_ext by (cbn [blocks]; exact He). cbn [option_map set_blocks blocks].
+  replace ((p ++ [a]) ++ q') with (p ++ a :: q') by (rewrite <- app_assoc; reflexivity).
+  split; [reflexivity|].
+  symmetry. exact (store_blocks_ext _ [] H').
+Qed.
